@@ -1,5 +1,5 @@
 SPECIFICATION Spec
 CONSTANTS MaxLen = 5
  Variant = "ok"
-INVARIANTS Undone Refines
+INVARIANTS Undone Refines PadIndependent
 CHECK_DEADLOCK FALSE
